@@ -168,6 +168,7 @@ func (e *Eng) execCallInner(fr *Frame, ins ssa.Instruction, c *ssa.CallCommon, f
 			cfs = fs
 		}
 		e.pendingNonNil = fr.knownNonNilAt(ins.Block())
+		e.pendingUp = fr
 		res, out, outG := e.execFunc(callee, args, bindings, st, g, fr.depth+1, cfs, e.namePrefix+"in:"+key+"/")
 		e.inlineStack = e.inlineStack[:len(e.inlineStack)-1]
 		e.sc.comment("end inline " + key)
@@ -588,15 +589,58 @@ func (e *Eng) applyIfaceSpec(fr *Frame, is *IfaceSpec, c *ssa.CallCommon, recv *
 }
 
 // siteSets: `at call <callee>: set $g := e` executed after the call (res = its result).
-func (e *Eng) siteSetsWhen(fr *Frame, kind, name string, st *State, g string, res *Val, before bool) {
-	if fr.fspec == nil {
+// hasOwnSite: the function of this frame itself contains a call (go statement, make) of that kind and name.
+func (e *Eng) hasOwnSite(fr *Frame, kind, name string) bool {
+	if fr.ownSites == nil {
+		fr.ownSites = map[string]bool{}
+		for _, b := range fr.fn.Blocks {
+			for _, ins := range b.Instrs {
+				switch x := ins.(type) {
+				case *ssa.Call:
+					fr.ownSites["call:"+calleeName(x.Common())] = true
+				case *ssa.Defer:
+					fr.ownSites["call:"+calleeName(x.Common())] = true
+				case *ssa.Go:
+					fr.ownSites["go:"+calleeName(x.Common())] = true
+				case *ssa.MakeSlice:
+					fr.ownSites["make:"+descr(x.Len, 0)] = true
+				}
+			}
+		}
+	}
+	return fr.ownSites[kind+":"+name]
+}
+
+// specFrame: the frame whose contract speaks about the code being executed: the frame itself if its function is under
+// contract, otherwise the nearest frame it is inlined into that is (a helper extracted from a function under contract
+// is still that function's code; clauses with a site ordinal refer to the function's own source and do not apply there).
+func (fr *Frame) specFrame() (*Frame, bool) {
+	if fr.fspec != nil {
+		return fr, true
+	}
+	for f := fr.up; f != nil; f = f.up {
+		if f.fspec != nil {
+			return f, false
+		}
+	}
+	return nil, false
+}
+
+func (e *Eng) siteSetsWhen(fr0 *Frame, kind, name string, st *State, g string, res *Val, before bool) {
+	fr, own := fr0.specFrame()
+	if fr == nil {
+		return
+	}
+	if !own && e.hasOwnSite(fr, kind, name) {
+		// the function under contract has such sites of its own: its clauses speak about those, not about the
+		// same call inside a helper it happens to use
 		return
 	}
 	for _, s := range fr.fspec.Sites {
 		if s.Kind != kind || s.Callee != name || s.SetGhost == "" || s.Before != before {
 			continue
 		}
-		if s.Ordinal != 0 && s.Ordinal != e.siteOrdinal(fr, kind, name) {
+		if s.Ordinal != 0 && (!own || s.Ordinal != e.siteOrdinal(fr, kind, name)) {
 			continue
 		}
 		env := e.siteEnv(fr)
@@ -628,15 +672,21 @@ func (e *Eng) siteSetsWhen(fr *Frame, kind, name string, st *State, g string, re
 }
 
 // siteAsserts: `at call <callee>: assert ...` clauses of the enclosing (root or inlined) function.
-func (e *Eng) siteAsserts(fr *Frame, kind, name string, pos token.Pos, st *State, g string, extra map[string]*Val) {
-	if fr.fspec == nil {
+func (e *Eng) siteAsserts(fr0 *Frame, kind, name string, pos token.Pos, st *State, g string, extra map[string]*Val) {
+	fr, own := fr0.specFrame()
+	if fr == nil {
+		return
+	}
+	if !own && e.hasOwnSite(fr, kind, name) {
+		// the function under contract has such sites of its own: its clauses speak about those, not about the
+		// same call inside a helper it happens to use
 		return
 	}
 	for _, s := range fr.fspec.Sites {
 		if s.Kind != kind || s.Callee != name || s.SetGhost != "" || s.After || s.Iter {
 			continue
 		}
-		if s.Ordinal != 0 && s.Ordinal != e.siteOrdinal(fr, kind, name) {
+		if s.Ordinal != 0 && (!own || s.Ordinal != e.siteOrdinal(fr, kind, name)) {
 			continue
 		}
 		env := e.siteEnv(fr)
@@ -1062,15 +1112,21 @@ func (e *Eng) relyStepAll(st *State) {
 }
 
 // siteLemmasAfter: `at call f: lemma-after L: e` is proved in the state right after the call (res = result) and assumed from there on.
-func (e *Eng) siteLemmasAfter(fr *Frame, kind, name string, pos token.Pos, st *State, g string, res *Val) {
-	if fr.fspec == nil {
+func (e *Eng) siteLemmasAfter(fr0 *Frame, kind, name string, pos token.Pos, st *State, g string, res *Val) {
+	fr, own := fr0.specFrame()
+	if fr == nil {
+		return
+	}
+	if !own && e.hasOwnSite(fr, kind, name) {
+		// the function under contract has such sites of its own: its clauses speak about those, not about the
+		// same call inside a helper it happens to use
 		return
 	}
 	for _, s := range fr.fspec.Sites {
 		if s.Kind != kind || s.Callee != name || !s.After {
 			continue
 		}
-		if s.Ordinal != 0 && s.Ordinal != e.siteOrdinal(fr, kind, name) {
+		if s.Ordinal != 0 && (!own || s.Ordinal != e.siteOrdinal(fr, kind, name)) {
 			continue
 		}
 		env := e.siteEnv(fr)
